@@ -5,6 +5,6 @@ CONSTANTS
   CompW = {0, 1, 2}
   BoundW = {1}
   Guarded = TRUE
-INVARIANTS NeverTooWide ExactBody NothingWhenNoRoom Proportional RefillWithin ZeroAndFull EmitRow
+INVARIANTS NeverTooWide ExactBody NothingWhenNoRoom Proportional RefillWithin ZeroAndFull SpinnerFits EmitRow
 PROPERTIES Terminates
 CHECK_DEADLOCK FALSE
